@@ -28,17 +28,17 @@ const (
 
 func init() {
 	register("C22", propMeta{
-		Explanation: "Decides the backup -> write -> delete-backup discipline of registry block writes: (R1) in writeBlockRegionPayload the copy-on-write backup is created (and its failure stops the write) before the direct-I/O write, and the backup is deleted only after a complete successful write; (R2) only writeBlockRegionPayload and restoreFromCow may call the direct-I/O write; (R3) updateFileBlockRegion holds the block lock (released by defer) around read-verify-modify-write; (R4) format agreement between the backup's writer and its reader: the buffer handed to createCow is the very block buffer that is then written to the main file (a full blockSize block carrying its checksum), all callers allocate it with the aligned-block allocators, createCow writes exactly its data argument, and checkCow accepts exactly blockSize bytes that pass unmarshalData.",
+		Explanation:  "Decides the backup -> write -> delete-backup discipline of registry block writes: (R1) in writeBlockRegionPayload the copy-on-write backup is created (and its failure stops the write) before the direct-I/O write, and the backup is deleted only after a complete successful write; (R2) only writeBlockRegionPayload and restoreFromCow may call the direct-I/O write; (R3) updateFileBlockRegion holds the block lock (released by defer) around read-verify-modify-write; (R4) format agreement between the backup's writer and its reader: the buffer handed to createCow is the very block buffer that is then written to the main file (a full blockSize block carrying its checksum), all callers allocate it with the aligned-block allocators, createCow writes exactly its data argument, and checkCow accepts exactly blockSize bytes that pass unmarshalData.",
 		DoesNotCover: "Torn-prefix lengths and concurrent readers are not enumerated; that WriteFile is atomic enough for the backup itself is assumed.",
 	}, runC22)
 	register("C23", propMeta{
-		Explanation: "(R1) In readAndRestoreBlock every success (nil) return is dominated by a successful checksum verification of the bytes just read, or hands over to restoreFromCow, whose own success returns are dominated by copying checksum-verified backup bytes into the caller's buffer; (R2) every reader of block bytes (findOneFileRegion, updateFileBlockRegion) obtains them through readAndRestoreBlock, which is the only caller of the direct-I/O read; (R3) checkCow returns restorable data only when unmarshalData accepted it.",
+		Explanation:  "(R1) In readAndRestoreBlock every success (nil) return is dominated by a successful checksum verification of the bytes just read, or hands over to restoreFromCow, whose own success returns are dominated by copying checksum-verified backup bytes into the caller's buffer; (R2) every reader of block bytes (findOneFileRegion, updateFileBlockRegion) obtains them through readAndRestoreBlock, which is the only caller of the direct-I/O read; (R3) checkCow returns restorable data only when unmarshalData accepted it.",
 		DoesNotCover: "CRC32 collision resistance; corruption of a block that is all zeros (documented sparse-block optimisation).",
 	}, runC23)
 	register("C24", propMeta{
-		Explanation: "Obligations discharged by table extraction and constant evaluation: O1 the widths written by encoding.encode sum to sop.HandleSizeInBytes; O2 decode reads the same (field, width) sequence; O3 every field of sop.Handle appears exactly once in each; O4 each field's Go type has exactly the encoded width and both sides use the same byte order; O5 handlesPerBlock x HandleSizeInBytes + 4 <= blockSize; O6 the slot offset is (low % handlesPerBlock) x HandleSizeInBytes and the block offset a multiple of blockSize; O7 the checksum is placed by marshalData(buffer[:blockSize-4], buffer) in the last 4 bytes; O8 the block scan visits handlesPerBlock slots stepping by HandleSizeInBytes; O9 the handle bytes are copied into [offset, offset+HandleSizeInBytes).",
+		Explanation:  "Obligations discharged by table extraction and constant evaluation: O1 the widths written by encoding.encode sum to sop.HandleSizeInBytes; O2 decode reads the same (field, width) sequence; O3 every field of sop.Handle appears exactly once in each; O4 each field's Go type has exactly the encoded width and both sides use the same byte order; O5 handlesPerBlock x HandleSizeInBytes + 4 <= blockSize; O6 the slot offset is (low % handlesPerBlock) x HandleSizeInBytes and the block offset a multiple of blockSize; O7 the checksum is placed by marshalData(buffer[:blockSize-4], buffer) in the last 4 bytes; O8 the block scan visits handlesPerBlock slots stepping by HandleSizeInBytes; O9 the handle bytes are copied into [offset, offset+HandleSizeInBytes).",
 		DoesNotCover: "Nothing about concurrency; the byte-level behaviour of encoding/binary and bytes.Buffer is trusted.",
-		Technique:   "static analysis: extraction of the encoder's and decoder's field/width tables from the syntax tree, agreement checks, and constant evaluation of the block layout arithmetic (go/types, go/constant)",
+		Technique:    "static analysis: extraction of the encoder's and decoder's field/width tables from the syntax tree, agreement checks, and constant evaluation of the block layout arithmetic (go/types, go/constant)",
 	}, runC24)
 }
 
